@@ -211,6 +211,16 @@ func runC05(w *World, c *Check) {
 			"what is encrypted starts with that random buffer (append(confounder, message…))", fmt.Sprintf("EncryptData operands: %v", encArgs))
 	}
 
+	// des3: the MAC is taken over what is encrypted — confounder ‖ message ‖ zero padding (RFC 3961
+	// §6.3: "checksum over conf | plaintext | pad"); the reference decryptor verifies over the padded
+	// plaintext it recovers, so a MAC over the unpadded bytes fails for every unaligned length
+	checkCalls(w, c, "C05.sibling", "crypto/rfc3961.DES3EncryptMessage", []CallSpec{
+		{Name: "mac-over-padded-plaintext", Desc: "the integrity hash covers the zero-padded confounder‖message, the same bytes that are encrypted",
+			Callee: `crypto/common\.GetIntegrityHash`, Want: `crypto/common\.GetIntegrityHash\(crypto/common\.ZeroPad\(append\(.*, message\), crypto/etype\.EType\.GetMessageBlockByteSize\(e\)\)#0, key, usage, e\)`},
+		{Name: "encrypts-padded-plaintext", Desc: "the cipher input is that same padded buffer",
+			Callee: `crypto/etype\.EType\.EncryptData`, Want: `crypto/etype\.EType\.EncryptData\(e, .*, crypto/common\.ZeroPad\(append\(.*, message\), crypto/etype\.EType\.GetMessageBlockByteSize\(e\)\)#0\)`},
+	})
+
 	// ---- rule 5: sibling agreement -------------------------------------------------
 	derive := `crypto/etype\.EType\.DeriveKey\(e, key, crypto/common\.GetUsageKe\(usage\)\)`
 	for _, fam := range []struct{ enc, dec, ih string }{
